@@ -52,7 +52,12 @@ LEVEL_TEXT = (
     "path-sensitive constant executor in the calling context of the redirect (arguments and defaults of the calls leading "
     "to the assembly, the bound-scheme fallback, the secure/websocket case split, whatever their order and spelling), is a "
     "scheme of the same security class (https/wss vs http/ws). Decided on all paths of the "
-    "analysed functions. NOT decided: that the redirect target matches without "
+    "analysed functions. Values are followed element-wise through tuples, mappings with constant keys, lists / generators / iterators "
+    "(yield, next(), for, comprehensions, iter(callable, sentinel)), item stores and mutating calls on locals, * / ** arguments taken from "
+    "literal tuples / tables, and through methods (also static / class-level) and module-level functions of the routing package; where request "
+    "data reaches a scheme or host position, or an assembled URL, path prefix or slash stripping can only be judged, through a construct that is "
+    "not followed (a part taken out of a value flattened by an unmodelled operation, unmatched * / ** arguments, an unknown stripping helper), "
+    "the answer is ANALYSIS-ERROR (cannot decide), not a violation. NOT decided: that the redirect target matches without "
     "a further redirect and denotes the same endpoint and arguments beyond R12.7 (behavioural: depends on the rule set - "
     "which rule build() selects for the values, provides_defaults_for/suitable_for), that values are converted correctly "
     "(to_python/to_url round trip), adapters bound to an empty or other scheme, value-level "
@@ -63,6 +68,7 @@ TRUSTED = [
     "urllib.parse.urlunsplit places its five elements in the scheme, netloc, path, query and fragment positions and inserts '/' between a netloc and a path that lacks one",
     "str.lstrip('/') returns a string that does not start with '/'",
     "an f-string replacement field without conversion or format spec inserts a str unchanged",
+    "Python semantics of containers and iteration: a for loop / next() / comprehension over a generator, list, tuple or set gives the values that were yielded / stored; d[k], d.get(k), **d read what was stored under k",
     "Python semantics of constants: comparison, `in` on set/tuple/frozenset displays, and/or/not, conditional expressions, str concatenation and the str methods lower/upper/strip/startswith/endswith/removeprefix/removesuffix/partition",
 ]
 ASSUMPTIONS = [
@@ -86,6 +92,7 @@ SCHEMES = ("http", "https", "ws", "wss")  # the schemes an adapter is bound to (
 SECURE = frozenset(["https", "wss"])
 
 Labels = t.FrozenSet[t.Tuple[str, bool]]  # (source, reached the place unchanged)
+URL_LOST = "an assembled URL"  # prefix of the note left where a URL shape stops being tracked
 
 
 # ---------------------------------------------------------------------
@@ -95,18 +102,26 @@ Labels = t.FrozenSet[t.Tuple[str, bool]]  # (source, reached the place unchanged
 class Url:
     """one place where a URL is assembled position by position."""
 
-    __slots__ = ("site", "where", "form", "scheme", "netloc", "path_labs", "path_ok", "path_fact", "query")
+    __slots__ = ("site", "where", "form", "scheme", "netloc", "path_labs", "path_ok", "path_fact", "query", "weak")
 
-    def __init__(self, site: ast.AST, where: FuncInfo, form: str, scheme: Labels, netloc: Labels, path_labs: Labels, path_ok: bool, path_fact: str, query: Labels):
+    def __init__(self, site: ast.AST, where: FuncInfo, form: str, scheme: Labels, netloc: Labels, path_labs: Labels, path_ok: bool | None, path_fact: str, query: Labels,
+                 weak: t.FrozenSet[t.Tuple[str, str]] = frozenset()):
         self.site, self.where, self.form = site, where, form
         self.scheme, self.netloc, self.path_labs, self.path_ok, self.path_fact, self.query = scheme, netloc, path_labs, path_ok, path_fact, query
+        # (position, label name) pairs of the scheme / host positions whose presence the interpreter could not establish
+        self.weak = weak
+
+    def _strong(self) -> set[tuple[str, str]]:
+        return {(pos, n) for pos, ls in (("scheme", self.scheme), ("host", self.netloc)) for n, _ in ls} - set(self.weak)
 
     def merged(self, o: "Url") -> "Url":
+        weak = frozenset((self.weak | o.weak) - (self._strong() | o._strong()))
+        worse = o if (o.path_ok is False and self.path_ok is not False) or (o.path_ok is None and self.path_ok) else self
         return Url(self.site, self.where, self.form, self.scheme | o.scheme, self.netloc | o.netloc, self.path_labs | o.path_labs,
-                   self.path_ok and o.path_ok, self.path_fact if not self.path_ok or o.path_ok else o.path_fact, self.query | o.query)
+                   worse.path_ok, worse.path_fact, self.query | o.query, weak)
 
     def with_query(self, q: Labels) -> "Url":
-        return Url(self.site, self.where, self.form, self.scheme, self.netloc, self.path_labs, self.path_ok, self.path_fact, self.query | q)
+        return Url(self.site, self.where, self.form, self.scheme, self.netloc, self.path_labs, self.path_ok, self.path_fact, self.query | q, self.weak)
 
     def all_labs(self) -> Labels:
         return self.scheme | self.netloc | self.path_labs | self.query
@@ -116,32 +131,78 @@ class Url:
 
 
 class Abs:
-    """labels of request data that may be in a value; optionally element-wise (tuples) and as URL shapes."""
+    """labels of request data that may be in a value; optionally with structure - element-wise (a tuple / a mapping
+    with constant keys: ``tup`` + ``keys``), as the element of an iterable (``it``: list, generator, iterator) - and as
+    URL shapes.  ``labs`` are labels of the value as a whole; taking a part of a structured value gives the part's own
+    abstraction joined with those.
 
-    __slots__ = ("labs", "tup", "urls", "consts", "plain", "notes")
+    ``het`` (subset of the names in ``labs``): the label got there by flattening a structure some of whose parts did
+    not carry it.  ``weak``: a part was then taken out of such a flattened value (or the value went through a construct
+    the interpreter does not model), so whether the label really is in this value is not known: a finding that rests
+    on weak labels alone is "cannot decide", not a violation."""
 
-    def __init__(self, labs: Labels = frozenset(), tup: tuple["Abs", ...] | None = None, urls: tuple[Url, ...] = (), consts: frozenset | None = None, plain: bool = True, notes: tuple[str, ...] = ()):
+    __slots__ = ("labs", "tup", "keys", "it", "urls", "consts", "plain", "notes", "het", "weak")
+
+    def __init__(self, labs: Labels = frozenset(), tup: tuple["Abs", ...] | None = None, urls: tuple[Url, ...] = (), consts: frozenset | None = None, plain: bool = True, notes: tuple[str, ...] = (),
+                 it: "Abs | None" = None, keys: tuple | None = None, het: t.FrozenSet[str] = frozenset(), weak: t.FrozenSet[str] = frozenset()):
         self.labs = labs
         self.tup = tup
+        self.keys = keys  # None: positions 0..n-1; else the constant keys of a mapping display
+        self.it = it
         self.urls = urls
         self.consts = consts  # set of python constants the value can be; None = unknown
         self.plain = plain  # may be something that is neither an assembled URL nor None
         self.notes = notes
+        self.het = het
+        self.weak = weak
+
+    def parts(self) -> list["Abs"]:
+        return list(self.tup or ()) + ([self.it] if self.it is not None else [])
+
+    def structured(self) -> bool:
+        return self.tup is not None or self.it is not None
 
     def flat(self) -> Labels:
         out = set(self.labs)
-        if self.tup is not None:
-            for x in self.tup:
-                out |= x.flat()
+        for x in self.parts():
+            out |= x.flat()
         for u in self.urls:
             out |= u.all_labs()
         return frozenset(out)
 
-    def nothing(self) -> bool:
-        return not self.labs and self.tup is None and not self.urls and not self.plain
+    def strong(self) -> set[str]:
+        """names whose presence somewhere in the value is established."""
+        out = {n for n, _ in self.labs} - self.weak
+        for x in self.parts():
+            out |= x.strong()
+        for u in self.urls:
+            out |= {n for n, _ in u.all_labs()}
+        return out
 
-    def cooked(self, note: tuple[str, ...] = ()) -> "Abs":
-        return Abs(frozenset((n, False) for n, _ in self.flat()), notes=self.notes + note)
+    def hetero(self) -> set[str]:
+        """names that belong to some parts of the value only."""
+        out = set(self.het)
+        ps = self.parts()
+        for x in ps:
+            out |= x.hetero()
+        if len(ps) > 1:
+            per = [{n for n, _ in x.flat()} for x in ps]
+            out |= set().union(*per) - set.intersection(*per)
+        return out - {n for n, _ in self.labs if n not in self.het}
+
+    def nothing(self) -> bool:
+        return not self.labs and not self.structured() and not self.urls and not self.plain
+
+    def cooked(self, note: tuple[str, ...] = (), select: bool = False, vague: bool = False) -> "Abs":
+        """the value went through an operation: labels only.  select: a *part* of the value is taken (labels that
+        belong to some parts only can then no longer be attributed); vague: a construct the interpreter does not model."""
+        nm = {n for n, _ in self.flat()}
+        weak = nm if vague else nm - self.strong()
+        het = self.hetero() & nm
+        if select:
+            weak |= het
+        lost = tuple(f"{URL_LOST} ({u.desc()}) went through an operation that is not modelled" for u in self.urls)
+        return Abs(frozenset((n, False) for n in nm), notes=tuple(dict.fromkeys(self.notes + note + lost)), het=frozenset(het - weak), weak=frozenset(weak))
 
 
 BOTTOM = Abs(consts=frozenset(), plain=False)
@@ -156,25 +217,60 @@ def lab(name: str) -> Abs:
     return Abs(frozenset([(name, True)]))
 
 
+def _labels_only(v: Abs) -> Abs:
+    """the labels of a (cooked) value without any claim about what else the value can be."""
+    return Abs(v.labs, consts=frozenset(), plain=False, notes=v.notes, het=v.het, weak=v.weak)
+
+
 def join(a: Abs, b: Abs) -> Abs:
+    extra: list[Abs] = []
+    tup, keys = None, None
+    if a.tup is not None and b.tup is not None:
+        if len(a.tup) == len(b.tup) and a.keys == b.keys:
+            tup, keys = tuple(join(x, y) for x, y in zip(a.tup, b.tup)), a.keys
+        else:  # two element-wise shapes that do not line up: flattened
+            extra = [_labels_only(Abs(tup=x.tup).cooked()) for x in (a, b)]
+    elif a.tup is not None:
+        tup, keys = a.tup, a.keys  # the other alternative's labels are labels of the whole value (see part())
+    elif b.tup is not None:
+        tup, keys = b.tup, b.keys
+    it = join(a.it, b.it) if a.it is not None and b.it is not None else (a.it if a.it is not None else b.it)
     labs = a.labs | b.labs
-    if a.tup is not None and b.tup is not None and len(a.tup) == len(b.tup):
-        tup: tuple[Abs, ...] | None = tuple(join(x, y) for x, y in zip(a.tup, b.tup))
-    elif a.tup is not None and b.nothing():
-        tup = a.tup
-    elif b.tup is not None and a.nothing():
-        tup = b.tup
-    else:
-        tup = None
-        for x in (a, b):
-            if x.tup is not None:
-                for e in x.tup:
-                    labs |= frozenset((n, False) for n, _ in e.flat())
+    sa, sb = {n for n, _ in a.labs} - a.weak, {n for n, _ in b.labs} - b.weak
+    weak = (a.weak | b.weak) - (sa | sb)
+    het = (a.het | b.het) - ((sa - a.het) | (sb - b.het)) - weak
     by_site: dict[int, Url] = {}
     for u in a.urls + b.urls:
         by_site[id(u.site)] = by_site[id(u.site)].merged(u) if id(u.site) in by_site else u
     consts = None if a.consts is None or b.consts is None else a.consts | b.consts
-    return Abs(labs, tup, tuple(by_site.values()), consts, a.plain or b.plain, tuple(dict.fromkeys(a.notes + b.notes)))
+    out = Abs(labs, tup, tuple(by_site.values()), consts, a.plain or b.plain, tuple(dict.fromkeys(a.notes + b.notes)), it, keys, frozenset(het), frozenset(weak))
+    for x in extra:
+        out = join(out, x)
+    return out
+
+
+_ANY = object()
+
+
+def part(v: Abs, key: t.Any = _ANY) -> Abs:
+    """what taking an element out of v gives: the element with that constant index / key, or any element (iteration,
+    next(), a computed index)."""
+    if not v.structured():
+        return v.cooked(select=True)
+    outs: list[Abs] = []
+    if v.tup is not None:
+        keys = v.keys if v.keys is not None else tuple(range(len(v.tup)))
+        if key is _ANY:
+            outs += list(v.tup)
+        else:
+            if v.keys is None and isinstance(key, int) and not isinstance(key, bool) and key < 0:
+                key += len(v.tup)
+            outs += [x for k, x in zip(keys, v.tup) if type(k) is type(key) and k == key]
+    if v.it is not None:
+        outs.append(v.it)
+    if v.labs or v.urls:
+        outs.append(_labels_only(Abs(v.labs, urls=v.urls, het=v.het, weak=v.weak).cooked(select=True)))
+    return join_all(outs) if outs else BOUND
 
 
 def join_all(xs: t.Iterable[Abs]) -> Abs:
@@ -182,6 +278,67 @@ def join_all(xs: t.Iterable[Abs]) -> Abs:
     for x in xs:
         out = join(out, x)
     return out
+
+
+def _ends_with_slash(e: ast.AST, name: str | None = None) -> bool:
+    """the string expression ends with a literal '/' (or is `name` on a path where name.endswith('/') holds: IfExp)."""
+    if isinstance(e, ast.IfExp) and name is not None:
+        t_, flip = e.test, False
+        while isinstance(t_, ast.UnaryOp) and isinstance(t_.op, ast.Not):
+            t_, flip = t_.operand, not flip
+        if _is_endswith_slash(t_, name):
+            keep, fix = (e.orelse, e.body) if flip else (e.body, e.orelse)
+            return astq.is_name(keep, name) and _ends_with_slash(fix)
+    if isinstance(e, ast.BinOp) and isinstance(e.op, ast.Add):
+        return _ends_with_slash(e.right)
+    if isinstance(e, ast.JoinedStr) and e.values:
+        return _ends_with_slash(e.values[-1])
+    s = const_str(e)
+    return s is not None and s.endswith("/")
+
+
+def _is_endswith_slash(e: ast.AST, name: str) -> bool:
+    return isinstance(e, ast.Call) and isinstance(e.func, ast.Attribute) and e.func.attr == "endswith" and astq.is_name(e.func.value, name) and len(e.args) == 1 and const_str(e.args[0]) == "/"
+
+
+def _stored_with_trailing_slash(init: ast.AST, attr: str) -> bool:
+    """every `self.<attr> = v` of __init__ stores a value that ends with '/'."""
+    stores = [st for st in walk_no_nested(init) if isinstance(st, (ast.Assign, ast.AnnAssign)) and st.value is not None
+              and any(is_self_attr(tg, attr) for tg in (st.targets if isinstance(st, ast.Assign) else [st.target]))]
+    if not stores:
+        return False
+    for st in stores:
+        v = st.value
+        if _ends_with_slash(v, v.id if isinstance(v, ast.Name) else None):
+            continue
+        if not isinstance(v, ast.Name):
+            return False
+        # `if not v.endswith("/"): v += "/"` earlier in the same block, v not rebound in between
+        block = getattr(astq.parent(st), "body", [])
+        if st not in block:
+            return False
+        ok = False
+        for prev in reversed(block[:block.index(st)]):
+            if isinstance(prev, ast.If) and not prev.orelse and isinstance(prev.test, ast.UnaryOp) and isinstance(prev.test.op, ast.Not) and _is_endswith_slash(prev.test.operand, v.id) \
+                    and len(prev.body) == 1 and ((isinstance(prev.body[0], ast.AugAssign) and isinstance(prev.body[0].op, ast.Add) and astq.is_name(prev.body[0].target, v.id) and _ends_with_slash(prev.body[0].value))
+                                                 or (isinstance(prev.body[0], ast.Assign) and len(prev.body[0].targets) == 1 and astq.is_name(prev.body[0].targets[0], v.id) and _ends_with_slash(prev.body[0].value))):
+                ok = True
+                break
+            if any(isinstance(n, ast.Name) and n.id == v.id and isinstance(n.ctx, (ast.Store, ast.Del)) for n in ast.walk(prev)):
+                break
+        if not ok:
+            return False
+    return True
+
+
+def _fn_has_params(fn: ast.AST) -> bool:
+    a = fn.args  # type: ignore[attr-defined]
+    return bool(a.posonlyargs or a.args or a.kwonlyargs or a.vararg or a.kwarg)
+
+
+def _weak_positions(scheme: Abs, netloc: Abs) -> t.FrozenSet[t.Tuple[str, str]]:
+    """(position, label) pairs of a URL's scheme / host positions that are there without being established."""
+    return frozenset((pos, n) for pos, v in (("scheme", scheme), ("host", netloc)) for n in {n for n, _ in v.flat()} - v.strong())
 
 
 def _keep_raw(v: Abs) -> Labels:
@@ -209,10 +366,53 @@ class Frame:
         self.rd: ReachingDefs = rd
         self.bind = bind
         self.stack = stack + (fi.fq,)
-        self.busy: set[int] = set()
+        self.busy: set[t.Any] = set()
+        self._writes: dict[str, list[tuple[str, ast.AST | None, ast.AST]]] | None = None
+
+    def writes(self) -> dict[str, list[tuple[str, ast.AST | None, ast.AST]]]:
+        """what the function stores *into* the value of a local (item / attribute stores, mutating method calls):
+        name -> [(how, key expression, stored expression)], how in elem / merge / item."""
+        if self._writes is None:
+            w: dict[str, list[tuple[str, ast.AST | None, ast.AST]]] = {}
+            for n in walk_no_nested(self.fi.node):
+                if isinstance(n, (ast.Assign, ast.AnnAssign, ast.AugAssign)) and n.value is not None:
+                    for tg in (n.targets if isinstance(n, ast.Assign) else [n.target]):
+                        for x in (tg.elts if isinstance(tg, (ast.Tuple, ast.List)) else [tg]):
+                            x = x.value if isinstance(x, ast.Starred) else x
+                            if isinstance(x, (ast.Subscript, ast.Attribute)):
+                                root = astq.chain_root(x)
+                                if isinstance(root, ast.Name) and root.id != "self":
+                                    whole = x is tg and isinstance(x, ast.Subscript) and x.value is root
+                                    w.setdefault(root.id, []).append(("item" if whole else "vague", x.slice if isinstance(x, ast.Subscript) else None, n.value))
+                elif isinstance(n, ast.Call) and isinstance(n.func, ast.Attribute) and n.func.attr in _MUTATING:
+                    root = astq.chain_root(n.func.value)
+                    if isinstance(root, ast.Name) and root.id != "self":
+                        how = _MUTATING[n.func.attr] if n.func.value is root else "vague"
+                        args = [a.value if isinstance(a, ast.Starred) else a for a in n.args] + [k.value for k in n.keywords]
+                        if how == "elem" and args and not n.keywords and not any(isinstance(a, ast.Starred) for a in n.args):
+                            for a in args[:-1]:
+                                w.setdefault(root.id, []).append(("key", None, a))
+                            w.setdefault(root.id, []).append(("elem", None, args[-1]))
+                        elif how == "setdefault" and len(n.args) == 2 and not n.keywords:
+                            w.setdefault(root.id, []).append(("item", n.args[0], n.args[1]))
+                        else:
+                            for a in args:
+                                w.setdefault(root.id, []).append(("merge" if how == "merge" else "vague", None, a))
+            self._writes = w
+        return self._writes
 
 
 Piece = t.Tuple[str, t.Any]  # ("c", text) | ("e", expr)
+
+# methods that store their argument(s) into the receiver: as an element (last argument; earlier ones are positions /
+# keys), element by element (merge), or key + value
+_MUTATING = {"append": "elem", "appendleft": "elem", "add": "elem", "insert": "elem", "__setitem__": "elem", "extend": "merge", "extendleft": "merge", "update": "merge",
+             "__ior__": "merge", "setdefault": "setdefault"}
+# str methods that do not remove leading slashes
+_PLAIN_STR_METHODS = {"lower", "upper", "casefold", "title", "capitalize", "swapcase", "rstrip", "removesuffix", "replace", "format", "encode", "decode", "ljust", "rjust", "center", "zfill",
+                      "expandtabs", "translate", "join"}
+# builtins whose result has the elements of their (single) iterable argument
+_SAME_ELEMENTS = {"iter", "list", "tuple", "sorted", "reversed", "set", "frozenset", "filter"}
 
 
 class Interp:
@@ -239,6 +439,10 @@ class Interp:
                             self.root_attrs.add(tg.attr)
                         if SCHEME_PARAM in used:
                             self.scheme_attrs.add(tg.attr)
+        # root attributes __init__ stores with a trailing '/' (`if not x.endswith("/"): x += "/"` before `self.a = x`,
+        # or a value whose last piece is a literal ending in '/')
+        self.slashed_root_attrs: set[str] = {a for a in self.root_attrs if _stored_with_trailing_slash(init.node, a)}
+        self.vague: list[str] = []  # calls whose argument binding could not be followed (since last reset)
         if len(self.request_attrs) < 2 or not self.root_attrs:
             raise AnalysisError(f"MapAdapter.__init__: request attributes {sorted(self.request_attrs)} / script root attributes {sorted(self.root_attrs)} not found")
         if self.repo.try_func("routing.rules.Rule.build") is None:
@@ -253,7 +457,8 @@ class Interp:
         a = callee.node.args  # type: ignore[attr-defined]
         pos = [x.arg for x in a.posonlyargs + a.args]
         is_method = callee.cls is not None and "staticmethod" not in callee.decorators
-        if is_method and pos:
+        via_class = isinstance(call.func, ast.Attribute) and not astq.is_name(call.func.value, "self") and "classmethod" not in callee.decorators
+        if is_method and pos and not via_class:  # `Class.method(obj, ...)` passes the instance explicitly
             pos = pos[1:]
         bind: dict[str, Abs] = {}
         defaults = dict(zip(reversed([x.arg for x in a.posonlyargs + a.args]), reversed(a.defaults)))
@@ -263,29 +468,61 @@ class Interp:
         for name, d in defaults.items():
             bind[name] = Abs(consts=frozenset([d.value]), plain=d.value is not None) if isinstance(d, ast.Constant) else BOUND
         spill: list[Abs] = []
-        for i, arg in enumerate(call.args):
-            if isinstance(arg, ast.Starred):
-                spill.append(self.ev(arg.value, fr))
-            elif i < len(pos):
-                bind[pos[i]] = self.ev(arg, fr)
+        given: list[Abs] = []  # the positional arguments whose positions are known
+        known = True
+        for arg in call.args:
+            starred = isinstance(arg, ast.Starred)
+            v = self.ev(arg.value if starred else arg, fr)
+            if known and not starred:
+                given.append(v)
+            elif known and v.tup is not None and v.keys is None and v.it is None and not v.labs:
+                given += list(v.tup)  # *(a, b): element-wise
             else:
-                spill.append(self.ev(arg, fr))
+                known = False  # positions from here on are not known
+                spill.append(part(v) if starred and v.structured() else v)
+        for i, g in enumerate(given):
+            if i < len(pos):
+                bind[pos[i]] = g
+            else:
+                spill.append(g)
         for kw in call.keywords:
-            if kw.arg is None:
-                spill.append(self.ev(kw.value, fr))
-            else:
+            if kw.arg is not None:
                 bind[kw.arg] = self.ev(kw.value, fr)
+                continue
+            v = self.ev(kw.value, fr)
+            if v.structured() and (v.keys is not None or v.tup is None):
+                # **{"name": value, ...}: by key; what is stored under computed keys may go to any parameter
+                rest = part(Abs(v.labs, it=v.it, het=v.het, weak=v.weak)) if (v.it is not None and not v.it.nothing()) or v.labs else None
+                for name in callee.params:
+                    if v.keys is not None and name in v.keys:
+                        bind[name] = part(v, name)
+                    elif rest is not None and name != "self":
+                        bind[name] = join(bind.get(name, BOTTOM), rest)
+            else:
+                spill.append(v)
         if spill:
-            extra = join_all(spill).cooked()
+            # arguments whose parameter is not known: any of them may be in any parameter (not established for a particular one)
+            extra = join_all(spill).cooked((f"* / ** arguments of the call of {callee.qualname}",), vague=True)
+            self.vague.append(f"the * / ** arguments of `{norm(call)[:70]}` in {fr.fi.qualname} could not be matched with the parameters of {callee.qualname}")
             for name in callee.params:
                 bind[name] = join(bind.get(name, BOTTOM), extra)
         return Frame(callee, bind, fr.stack, fr, call)
 
     def self_callee(self, call: ast.Call, fr: Frame) -> FuncInfo | None:
+        """the function of the routing package a call runs: a method through self / type(self) / self.__class__ / the
+        class name, or a module-level function."""
         f = call.func
-        if isinstance(f, ast.Attribute) and astq.is_name(f.value, "self") and fr.fi.cls is not None:
-            _, what = self.repo.lookup(fr.fi.cls, f.attr)
-            if isinstance(what, FuncInfo):
+        if isinstance(f, ast.Attribute) and fr.fi.cls is not None:
+            v = f.value
+            own = astq.is_name(v, "self") or (isinstance(v, ast.Attribute) and v.attr == "__class__" and astq.is_name(v.value, "self")) \
+                or (isinstance(v, ast.Call) and astq.is_name(v.func, "type") and len(v.args) == 1 and astq.is_name(v.args[0], "self"))
+            if own:
+                _, what = self.repo.lookup(fr.fi.cls, f.attr)
+                return what if isinstance(what, FuncInfo) else None
+        fq = self.resolves_to(fr, f)
+        if fq is not None and fq.startswith("werkzeug.routing."):
+            what = self.repo.try_func(fq)
+            if what is not None and (what.cls is None or isinstance(f, ast.Attribute)):
                 return what
         return None
 
@@ -297,7 +534,7 @@ class Interp:
         for tnode, label in fr.cfg.guards(node):
             if tnode.kind == "test" and isinstance(tnode.ast, ast.Name):
                 v = self.ev(tnode.ast, fr)
-                if v.consts is not None and v.consts and not v.labs and v.tup is None and not v.urls:
+                if v.consts is not None and v.consts and not v.labs and not v.structured() and not v.urls:
                     truth = {bool(c) for c in v.consts}
                     if (truth == {True} and label == "F") or (truth == {False} and label == "T"):
                         return False
@@ -308,8 +545,14 @@ class Interp:
             return BOTTOM
         nf = self.call_frame(callee, call, fr)
         self.ctx.saw(callee)
-        if any(isinstance(n, (ast.Yield, ast.YieldFrom)) for n in walk_no_nested(callee.node)):
-            return join_all(nf.bind.values()).cooked()
+        if isinstance(callee.node, ast.AsyncFunctionDef):  # a coroutine / async generator object: not modelled
+            return join_all(nf.bind.values()).cooked((f"{callee.qualname} is async",), vague=True)
+        yields = [n for n in walk_no_nested(callee.node) if isinstance(n, (ast.Yield, ast.YieldFrom))]
+        if yields:
+            # a generator function: the call gives an iterator over what the (feasible) yields produce
+            elems = [(self.ev(y.value, nf) if y.value is not None else none_abs()) if isinstance(y, ast.Yield) else part(self.ev(y.value, nf))
+                     for y in yields if self.feasible(y, nf)]
+            return Abs(it=join_all(elems))
         rets = [r for r in astq.returns_of(callee.node) if self.feasible(r, nf)]
         if not rets:
             return none_abs()
@@ -317,14 +560,64 @@ class Interp:
 
     # -- names ----------------------------------------------------------
     def ev_name(self, e: ast.Name, fr: Frame) -> Abs:
+        g = bound_in_enclosing_comp(e, fr.fi.node)
+        if g is not None:
+            comp = getattr(g, "_parent", None)
+            if comp is not None and comp.generators[0] is g and any(x is e for x in ast.walk(g.iter)):
+                g = None  # the first iterable of a comprehension is evaluated in the enclosing scope
+        if g is not None and ("comp", id(g)) in fr.busy:
+            return BOTTOM
+        if g is not None:
+            fr.busy.add(("comp", id(g)))
+            try:
+                return self._comp_var(e, g, fr)
+            finally:
+                fr.busy.discard(("comp", id(g)))
         node = fr.cfg.node_of(e)
         defs = fr.rd.reaching(node, e.id) if node is not None else frozenset()
         if not defs:
-            g = bound_in_enclosing_comp(e, fr.fi.node)
-            if g is not None:
-                return self.ev(g.iter, fr).cooked()
             return BOUND  # module-level name, builtin
-        return join_all(self.ev_def(d, fr) for d in defs)
+        base = join_all(self.ev_def(d, fr) for d in defs)
+        w = self.written(e.id, fr)
+        return base if w is None else join(base, w)
+
+    def _comp_var(self, e: ast.Name, g: ast.comprehension, fr: Frame) -> Abs:
+        """a comprehension variable: an element of the iterable (by position when the target is a flat tuple)."""
+        v = part(self.ev(g.iter, fr))
+        if isinstance(g.target, ast.Name):
+            return v
+        if isinstance(g.target, (ast.Tuple, ast.List)) and not any(isinstance(y, ast.Starred) for y in g.target.elts):
+            for i, x in enumerate(g.target.elts):
+                if astq.is_name(x, e.id):
+                    return part(v, i)
+        return v.cooked(select=True)
+
+    def written(self, name: str, fr: Frame) -> Abs | None:
+        """what the function stores into the value a local holds (flow-insensitive: any store anywhere in the function)."""
+        ws = fr.writes().get(name)
+        key = ("written", name)
+        if not ws or key in fr.busy:
+            return None
+        fr.busy.add(key)
+        try:
+            elems: list[Abs] = []
+            whole: list[Abs] = []
+            for how, k, v in ws:
+                val = self.ev(v, fr)
+                if how in ("elem", "item"):
+                    elems.append(val)
+                    if k is not None:
+                        whole.append(self.ev(k, fr).cooked())
+                elif how == "merge":
+                    elems.append(part(val))
+                elif how == "key":
+                    whole.append(val.cooked())
+                else:
+                    whole.append(val.cooked(vague=val.structured()))
+            out = _labels_only(join_all(whole)) if whole else BOTTOM
+            return join(out, Abs(it=join_all(elems), consts=frozenset(), plain=False)) if elems else out
+        finally:
+            fr.busy.discard(key)
 
     def ev_def(self, d: Def, fr: Frame) -> Abs:
         if d.kind == "param":
@@ -333,20 +626,27 @@ class Interp:
             return BOTTOM
         fr.busy.add(id(d))
         try:
-            if d.kind in ("assign", "walrus"):
+            if d.kind in ("assign", "walrus") and d.value is not None:
                 return self.ev(d.value, fr)
-            if d.kind == "unpack":
-                v = self.ev(d.value, fr)
-                if v.tup is not None and d.index is not None and d.index < len(v.tup):
-                    return v.tup[d.index]
-                return v.cooked()
+            starred = isinstance(getattr(d.target, "_parent", None), ast.Starred)
+            if d.kind == "unpack" or (d.kind == "assign" and d.value is None):
+                if d.value is None or d.index is None or starred:  # nested / starred target
+                    return self.ev(getattr(d.stmt, "value", None), fr).cooked(select=True)
+                return part(self.ev(d.value, fr), d.index)
             if d.kind == "aug":
                 base = join_all(self.ev_def(x, fr) for x in fr.rd.reaching(d.node, d.name)) if d.node is not None else BOTTOM
                 tail = self.query_tail(d.value, fr) if isinstance(getattr(d.stmt, "op", None), ast.Add) else None
                 if base.urls and not base.plain and tail is not None:
                     return Abs(urls=tuple(u.with_query(tail) for u in base.urls), plain=False)
                 return join(base, self.ev(d.value, fr)).cooked()
-            if d.kind in ("for", "with"):
+            if d.kind == "for":
+                v = part(self.ev(getattr(d.stmt, "iter", None) if d.value is None else d.value, fr))  # any element of the iterable
+                if d.value is None or starred:
+                    return v.cooked(select=True)
+                return v if d.index is None else part(v, d.index)
+            if d.kind == "with":
+                if d.value is None:  # nested target
+                    return join_all(self.ev(i.context_expr, fr) for i in getattr(d.stmt, "items", ())).cooked(select=True)
                 return self.ev(d.value, fr).cooked()
             if d.kind == "except":
                 return lab(f"matcher exception `{d.name}`")
@@ -380,18 +680,36 @@ class Interp:
                 if e.attr in self.request_attrs:
                     return lab(f"self.{e.attr}")
                 return BOUND
-            return self.ev(e.value, fr).cooked()
+            return self.ev(e.value, fr).cooked(select=True)
         if isinstance(e, ast.Call):
             return self.ev_call(e, fr)
-        if isinstance(e, (ast.Tuple, ast.List)):
-            if any(isinstance(x, ast.Starred) for x in e.elts):
-                return join_all(self.ev(x.value if isinstance(x, ast.Starred) else x, fr) for x in e.elts).cooked()
+        if isinstance(e, (ast.Tuple, ast.List, ast.Set)):
+            if any(isinstance(x, ast.Starred) for x in e.elts) or isinstance(e, ast.Set):
+                # the elements, position unknown
+                return Abs(it=join_all(part(self.ev(x.value, fr)) if isinstance(x, ast.Starred) else self.ev(x, fr) for x in e.elts))
             return Abs(tup=tuple(self.ev(x, fr) for x in e.elts))
+        if isinstance(e, ast.Dict):
+            ks = [k.value if isinstance(k, ast.Constant) else _ANY for k in e.keys]
+            if e.keys and all(k is not _ANY for k in ks) and len({(type(k), k) for k in ks}) == len(ks):
+                return Abs(tup=tuple(self.ev(x, fr) for x in e.values), keys=tuple(ks))
+            if not e.keys:
+                return Abs(it=BOTTOM)  # an empty mapping display: what is stored into it later is joined in by ev_name
+            whole = [self.ev(k, fr).cooked() for k in e.keys if k is not None]
+            return join(_labels_only(join_all(whole)) if whole else BOTTOM, Abs(it=join_all(self.ev(x, fr) if k is not None else part(self.ev(x, fr)) for k, x in zip(e.keys, e.values))))
+        if isinstance(e, (ast.ListComp, ast.SetComp, ast.GeneratorExp)):
+            return Abs(it=self.ev(e.elt, fr))
+        if isinstance(e, ast.DictComp):
+            return join(_labels_only(self.ev(e.key, fr).cooked()), Abs(it=self.ev(e.value, fr)))
         if isinstance(e, ast.Subscript):
             base = self.ev(e.value, fr)
-            if base.tup is not None and isinstance(e.slice, ast.Constant) and isinstance(e.slice.value, int) and 0 <= e.slice.value < len(base.tup):
-                return base.tup[e.slice.value]
-            return join(base, self.ev(e.slice, fr)).cooked()
+            idx: ast.AST = e.slice
+            if isinstance(idx, ast.UnaryOp) and isinstance(idx.op, ast.USub) and isinstance(idx.operand, ast.Constant) and isinstance(idx.operand.value, int):
+                idx = ast.Constant(value=-idx.operand.value)
+            if isinstance(idx, ast.Constant):
+                return part(base, idx.value)
+            if isinstance(idx, ast.Slice) and base.structured():
+                return join(Abs(it=part(base)), _labels_only(self.ev(idx, fr).cooked()))  # some of the elements, positions shifted
+            return join(part(base), _labels_only(self.ev(idx, fr).cooked()))
         if isinstance(e, ast.IfExp):
             return join(self.ev(e.body, fr), self.ev(e.orelse, fr))
         if isinstance(e, ast.BoolOp):
@@ -409,7 +727,10 @@ class Interp:
                 tail = self.query_tail_pieces([p for x in chain for p in self.pieces(x, fr, resolve=False)], fr)
                 if tail is not None:
                     return Abs(urls=tuple(u.with_query(tail) for u in first.urls), plain=False)
-            return join_all([first] + [self.ev(x, fr) for x in chain]).cooked()
+            rest = [self.ev(x, fr) for x in chain]
+            if all(x.structured() and x.keys is None and not x.labs and not x.urls for x in [first] + rest):
+                return Abs(it=join_all(part(x) for x in [first] + rest))  # sequences concatenated: the elements of all of them
+            return join_all([first] + rest).cooked()
         if isinstance(e, ast.JoinedStr):
             if len(e.values) >= 2 and isinstance(e.values[0], ast.FormattedValue) and e.values[0].conversion == -1 and e.values[0].format_spec is None:
                 left = self.ev(e.values[0].value, fr)
@@ -430,6 +751,15 @@ class Interp:
             return None
         return self.repo.resolve(fr.fi.module, d, fr.fi.module.local_imports(fr.fi.node))
 
+    def is_builtin(self, f: ast.AST, fr: Frame) -> str | None:
+        """the name of the builtin a call's function expression denotes (not rebound in the function or the module)."""
+        if not isinstance(f, ast.Name) or self.resolves_to(fr, f) != f"builtins.{f.id}":
+            return None
+        node = fr.cfg.node_of(f)
+        if node is not None and fr.rd.reaching(node, f.id):
+            return None
+        return f.id
+
     def ev_call(self, c: ast.Call, fr: Frame) -> Abs:
         callee = self.self_callee(c, fr)
         if callee is not None:
@@ -437,14 +767,49 @@ class Interp:
         fq = self.resolves_to(fr, c.func)
         if fq == URLUNSPLIT:
             return self.ev_urlunsplit(c, fr)
+        f = c.func
+        simple = not c.keywords and not any(isinstance(a, ast.Starred) for a in c.args)
+        b = self.is_builtin(f, fr)
+        if b is not None and simple:
+            if b == "next" and 1 <= len(c.args) <= 2:
+                # an element of the iterator, or the default
+                return join(part(self.ev(c.args[0], fr)), self.ev(c.args[1], fr)) if len(c.args) == 2 else part(self.ev(c.args[0], fr))
+            if b == "iter" and len(c.args) == 2 and isinstance(c.args[0], ast.Lambda) and not _fn_has_params(c.args[0]):
+                return Abs(it=self.ev(c.args[0].body, fr))  # iter(lambda: <expr>, sentinel): the values <expr> takes
+            if b in _SAME_ELEMENTS and len(c.args) == (2 if b == "filter" else 1):
+                v = self.ev(c.args[-1], fr)
+                if v.structured():
+                    if b in ("list", "tuple") and v.it is None and v.keys is None:
+                        return Abs(v.labs, v.tup, het=v.het, weak=v.weak)  # same elements at the same positions
+                    return join(Abs(it=part(v)), _labels_only(self.ev(c.args[0], fr).cooked())) if b == "filter" else Abs(it=part(v))
+            if b == "enumerate" and len(c.args) == 1:
+                return Abs(it=Abs(tup=(BOUND, part(self.ev(c.args[0], fr)))))
+            if b == "zip" and c.args:
+                return Abs(it=Abs(tup=tuple(part(self.ev(a, fr)) for a in c.args)))
+        if b == "dict" and not c.args and c.keywords and all(k.arg is not None for k in c.keywords):
+            return Abs(tup=tuple(self.ev(k.value, fr) for k in c.keywords), keys=tuple(k.arg for k in c.keywords))
+        recv = self.ev(f.value, fr) if isinstance(f, ast.Attribute) else None
+        if recv is not None and recv.structured() and simple:
+            if f.attr == "get" and recv.keys is not None and 1 <= len(c.args) <= 2 and isinstance(c.args[0], ast.Constant):
+                return join(part(recv, c.args[0].value), self.ev(c.args[1], fr) if len(c.args) == 2 else none_abs())
+            if f.attr in ("values", "copy", "__iter__") and not c.args:
+                return Abs(recv.labs, recv.tup if f.attr == "copy" else None, it=part(recv) if f.attr != "copy" else recv.it, keys=recv.keys if f.attr == "copy" else None, het=recv.het, weak=recv.weak)
+            if f.attr == "items" and not c.args and recv.keys is None:
+                return Abs(it=Abs(tup=(_labels_only(Abs(recv.labs, het=recv.het, weak=recv.weak).cooked(select=True)), part(recv))))
+            if f.attr == "__next__" and not c.args:
+                return part(recv)
         parts = [self.ev(a.value if isinstance(a, ast.Starred) else a, fr) for a in c.args] + [self.ev(k.value, fr) for k in c.keywords]
-        if isinstance(c.func, ast.Attribute):
-            parts.append(self.ev(c.func.value, fr))
+        if recv is not None:
+            # a method of a value: what it gives may be a part of the value
+            parts.append(_labels_only(recv.cooked(select=True)) if recv.structured() or recv.het else recv)
         allv = join_all(parts) if parts else BOUND
         if fq == URLJOIN:
             self.urljoins.append((c, fr))
-            return allv.cooked((f"urljoin at {fr.fi.qualname}",))
-        f = c.func
+            r = allv.cooked((f"urljoin at {fr.fi.qualname}",))
+            # urljoin is a modelled operation (its own obligation below; its result is not a URL assembled position by
+            # position), not a place where the analysis loses track of an assembled URL
+            r.notes = tuple(n for n in r.notes if not n.startswith(URL_LOST))
+            return r
         if isinstance(f, ast.Attribute) and f.attr == "build" and not astq.is_name(f.value, "self"):
             # Rule.build(values) -> (domain part declared by the rule, path built from the values) | None
             return Abs(tup=(BOUND, allv.cooked()))
@@ -507,10 +872,34 @@ class Interp:
                 out.append(p)
         return out
 
-    def check_path(self, pieces: list[Piece], fr: Frame, prefix: t.Sequence[ast.AST] = ()) -> tuple[bool, str, Labels]:
-        """path = bound prefix (naming the script root) + '/' + request data stripped of its leading slashes."""
-        pieces = self._fuse(pieces)
+    def names_root(self, e: ast.AST, fr: Frame) -> bool:
+        """the expression (locals with one definition replaced by what they were assigned) reads the script root attribute."""
+        return any(is_self_attr(n) and n.attr in self.root_attrs for q in self.pieces(e, fr, True) if q[0] == "e" for n in ast.walk(self.single_value(q[1], fr)))
+
+    def _strip_state(self, ex: ast.AST, both_ends: bool = True) -> str:
+        """does the expression give its request data with the leading slashes stripped?  yes / no / unknown.
+        both_ends: .strip('/') counts too (where trailing slashes do not matter)."""
+        if isinstance(ex, ast.IfExp):
+            alts = {self._strip_state(ex.body, both_ends), self._strip_state(ex.orelse, both_ends)}
+            return "no" if "no" in alts else ("unknown" if "unknown" in alts else "yes")
+        if isinstance(ex, ast.Constant):
+            return "yes"
+        if isinstance(ex, ast.Call) and isinstance(ex.func, ast.Attribute):
+            if ex.func.attr in (("lstrip", "strip") if both_ends else ("lstrip",)) and len(ex.args) == 1 and not ex.keywords and "/" in (const_str(ex.args[0]) or ""):
+                return "yes"
+            if ex.func.attr in _PLAIN_STR_METHODS or ex.func.attr in ("lstrip", "strip"):
+                return "no"  # a str method that keeps (some) leading slashes
+        if isinstance(ex, ast.Call):
+            return "unknown"  # a helper / another way of stripping: not modelled
+        return "no"  # the value as it is (name, attribute, subscript, ...)
+
+    def check_path(self, pieces: list[Piece], fr: Frame, prefix: t.Sequence[ast.AST] = ()) -> tuple[bool | None, str, Labels]:
+        """path = bound prefix (naming the script root) + '/' + request data stripped of its leading slashes.
+        -> (True / False / None = the shape is not understood, fact, labels in the path position)."""
+        # locals that hold a part of the path (one reaching definition) are replaced by what they were assigned
+        pieces = self._fuse([q for p in pieces for q in (self.pieces(p[1], fr, True) if p[0] == "e" else [p])])
         problems: list[str] = []
+        doubts: list[str] = []
         labs: set = set()
         first_taint: int | None = None
         for i, p in enumerate(pieces):
@@ -523,19 +912,29 @@ class Interp:
             if first_taint is None:
                 first_taint = i
             ex = p[1]
-            stripped = isinstance(ex, ast.Call) and isinstance(ex.func, ast.Attribute) and ex.func.attr in ("lstrip", "strip") and len(ex.args) == 1 and "/" in (const_str(ex.args[0]) or "")
-            if not stripped:
+            st = self._strip_state(ex)
+            if st == "no":
                 problems.append(f"`{norm(ex)}` ({', '.join(names(pl))}) is inserted without .lstrip('/')")
+            elif st == "unknown":
+                doubts.append(f"cannot tell whether `{norm(ex)}` ({', '.join(names(pl))}) has its leading slashes stripped")
             if i == 0:
                 problems.append(f"`{norm(ex)}` stands first in the path position")
-            elif not (pieces[i - 1][0] == "c" and pieces[i - 1][1].endswith("/")):
-                problems.append(f"`{norm(ex)}` is not preceded by a literal '/'")
-        head = list(prefix) + [p[1] for p in (pieces if first_taint is None else pieces[:first_taint]) if p[0] == "e"]
-        has_root = any(is_self_attr(n) and n.attr in self.root_attrs for h in head for n in ast.walk(h))
+            elif pieces[i - 1][0] == "c":
+                if not pieces[i - 1][1].endswith("/"):
+                    problems.append(f"`{norm(ex)}` is not preceded by a literal '/'")
+            elif not (is_self_attr(pieces[i - 1][1]) and pieces[i - 1][1].attr in self.slashed_root_attrs):  # the root attribute itself is stored with a trailing '/'
+                doubts.append(f"cannot tell whether `{norm(pieces[i - 1][1])}`, which precedes `{norm(ex)}`, ends with '/'")
+        own = [p[1] for p in (pieces if first_taint is None else pieces[:first_taint]) if p[0] == "e"]
+        has_root = any(self.names_root(h, fr) for h in list(prefix) + own)
         if not has_root:
-            problems.append(f"the bound prefix does not contain the script root (self.{'/'.join(sorted(self.root_attrs))})")
+            opaque = [h for h in own if any(isinstance(n, ast.Call) or (isinstance(n, ast.Name) and n.id != "self") for n in ast.walk(h))]
+            if opaque:
+                doubts.append(f"cannot tell whether the bound prefix ({', '.join('`' + norm(h) + '`' for h in opaque)}) contains the script root")
+            else:
+                problems.append(f"the bound prefix does not contain the script root (self.{'/'.join(sorted(self.root_attrs))})")
         shape = " + ".join(repr(p[1]) if p[0] == "c" else f"`{norm(p[1])}`" for p in pieces)
-        return not problems, (f"path = {shape}" if not problems else f"path = {shape}: " + "; ".join(problems)), frozenset(labs)
+        verdict: bool | None = False if problems else (None if doubts else True)
+        return verdict, (f"path = {shape}" if verdict else f"path = {shape}: " + "; ".join(problems + doubts)), frozenset(labs)
 
     def _register(self, u: Url) -> Abs:
         k = id(u.site)
@@ -552,7 +951,8 @@ class Interp:
         q = self.ev(query, fr)
         qlabs = _keep_raw(q)
         self.scheme_sites.append((c, fr, [("e", scheme)]))
-        return self._register(Url(c, fr.fi, "urlunsplit((scheme, host, path, query, fragment))", self.ev(scheme, fr).flat(), self.ev(netloc, fr).flat(), plabs, ok, fact, qlabs))
+        sv, nv = self.ev(scheme, fr), self.ev(netloc, fr)
+        return self._register(Url(c, fr.fi, "urlunsplit((scheme, host, path, query, fragment))", sv.flat(), nv.flat(), plabs, ok, fact, qlabs, _weak_positions(sv, nv)))
 
     def ev_fstring(self, e: ast.JoinedStr, fr: Frame) -> Abs:
         raw = self._fuse(self.pieces(e, fr, resolve=False))
@@ -565,6 +965,8 @@ class Interp:
         state = "scheme"
         for p in raw:
             if p[0] == "e":
+                if state == "netloc" and any(q[0] == "e" for q in zones["netloc"]) and self.names_root(p[1], fr):
+                    state = "path"  # the script root follows the host: the path begins here (no literal '/' needed in between)
                 zones[state].append(p)
                 continue
             s = p[1]
@@ -598,8 +1000,8 @@ class Interp:
                     zones["query"].append(("c", s))
                     s = ""
 
-        def zl(z: str) -> Labels:
-            return join_all(self.ev(p[1], fr) for p in zones[z] if p[0] == "e").flat() if any(p[0] == "e" for p in zones[z]) else frozenset()
+        def zv(z: str) -> Abs:
+            return join_all(self.ev(p[1], fr) for p in zones[z] if p[0] == "e")
 
         ok, fact, plabs = self.check_path(zones["path"], fr, prefix=[p[1] for p in zones["scheme"] + zones["netloc"] if p[0] == "e"])
         q: set = set()
@@ -607,7 +1009,8 @@ class Interp:
             if p[0] == "e":
                 q |= _keep_raw(self.ev(p[1], fr))
         self.scheme_sites.append((e, fr, self._fuse(zones["scheme"])))
-        return self._register(Url(e, fr.fi, "f-string {scheme}//{host}{root}/{path}", zl("scheme"), zl("netloc"), plabs, ok, fact, frozenset(q)))
+        sv, nv = zv("scheme"), zv("netloc")
+        return self._register(Url(e, fr.fi, "f-string {scheme}//{host}{root}/{path}", sv.flat(), nv.flat(), plabs, ok, fact, frozenset(q), _weak_positions(sv, nv)))
 
 
 # ---------------------------------------------------------------------
@@ -669,21 +1072,21 @@ def run(ctx: Ctx) -> None:
     # ---------------- R12.1 / R12.3: redirect sites ------------------------
     # match() and the adapter methods it calls (transitively) that raise RequestRedirect themselves, each in the
     # context of its call
-    raisers = {fi.fq for fi in ip.adapter.methods.values() if any(_is_redirect_exc(ip, fi, r) for r in astq.raises_of(fi.node))}
+    cands = list(ip.adapter.methods.values()) + [f for m in repo.modules.values() if m.name.startswith("werkzeug.routing") for f in m.functions.values()]
+    raisers = {fi.fq for fi in cands if any(_is_redirect_exc(ip, fi, r) for r in astq.raises_of(fi.node))}
     grew = True
     while grew:
         grew = False
-        for fi in ip.adapter.methods.values():
+        for fi in cands:
             if fi.fq in raisers:
                 continue
+            probe = Frame(fi, {}, ())
             for c in astq.calls(fi.node, nested=False):
-                f = c.func
-                if isinstance(f, ast.Attribute) and astq.is_name(f.value, "self"):
-                    _, what = repo.lookup(ip.adapter, f.attr)
-                    if isinstance(what, FuncInfo) and what.fq in raisers:
-                        raisers.add(fi.fq)
-                        grew = True
-                        break
+                what = ip.self_callee(c, probe)
+                if what is not None and what.fq in raisers:
+                    raisers.add(fi.fq)
+                    grew = True
+                    break
     frames: list[Frame] = []
 
     def visit(fr: Frame) -> None:
@@ -733,44 +1136,71 @@ def run(ctx: Ctx) -> None:
         arg = r.exc.args[0] if isinstance(r.exc, ast.Call) and r.exc.args else None
         if arg is None:
             raise AnalysisError(f"RequestRedirect raised without a URL argument at {fr.fi.loc(r)}")
+        ip.vague = []
         v = ip.ev(arg, fr)
         urls = list(v.urls)
         router_sites |= {id(u.site) for u in urls}
         assembled = bool(urls) and not v.plain
         what = "; ".join(u.desc() for u in urls) or "no positional assembly"
         stray = f"; also a value that is not an assembled URL ({', '.join(v.notes) or 'labels ' + str(names(v.flat()))})" if v.plain else ""
-        ctx.ob("R12.1", f"redirect {sid}: the URL is assembled position by position", assembled, f"value comes from: {what}{stray}", fr.fi, r, f"redirect {sid} assembled")
-        bad = sorted({f"{pos}<-{n}" for u in urls for pos, ls in (("scheme", u.scheme), ("host", u.netloc)) for n in names(ls)})
-        ctx.ob("R12.1", f"redirect {sid}: scheme and host positions hold bound data only", bool(urls) and not bad,
-               "request data in " + ", ".join(bad) if bad else (f"scheme/host labels empty over {len(urls)} URL shape(s) [{what}]" if urls else "no URL shape to inspect"), fr.fi, r, f"redirect {sid} scheme/host")
+        # reasons why a failing obligation of this site would be "not understood" rather than "violated": a URL that was
+        # assembled position by position went through something the interpreter does not model (str(url), a helper
+        # outside the routing package), or a call on the way bound its arguments through * / ** it could not match
+        unclear = [n for n in v.notes if n.startswith(URL_LOST)] + list(dict.fromkeys(ip.vague))
+
+        def site_ob(rule: str, instance: str, ok: bool, fact: str, key: str, decided: bool = False) -> None:
+            if not ok and unclear and not decided:
+                ctx.error(f"{rule}: redirect {sid} at {fr.fi.loc(r)}: cannot decide `{instance}` ({fact}): {'; '.join(unclear)}")
+            else:
+                ctx.ob(rule, f"redirect {sid}: {instance}", ok, fact, fr.fi, r, f"redirect {sid} {key}")
+
+        site_ob("R12.1", "the URL is assembled position by position", assembled, f"value comes from: {what}{stray}", "assembled")
+        bad = sorted({f"{pos}<-{n}" for u in urls for pos, n in u._strong()})
+        unsure = sorted({f"{pos}<-{n}" for u in urls for pos, n in u.weak})
+        if unsure and not bad:
+            # the labels got there only through a construct the interpreter cannot follow: not a finding, not a pass
+            ctx.error(f"R12.1: redirect {sid} at {fr.fi.loc(r)}: cannot decide whether request data reaches {', '.join(unsure)}: the value passes through a construct the taint analysis does not follow "
+                      f"(a part taken out of a value whose parts carry different data after it went through an unmodelled operation, or * / ** arguments){'; ' + '; '.join(v.notes) if v.notes else ''}")
+        else:
+            site_ob("R12.1", "scheme and host positions hold bound data only", bool(urls) and not bad,
+                    "request data in " + ", ".join(bad) if bad else (f"scheme/host labels empty over {len(urls)} URL shape(s) [{what}]" if urls else "no URL shape to inspect"), "scheme/host", decided=bool(bad))
         qok = bool(urls) and all(Q in u.query for u in urls)
         qfact = "; ".join(f"{u.desc()}: query position receives {sorted(n + (' (unchanged)' if raw else ' (transformed)') for n, raw in u.query) or 'nothing'}" for u in urls) or "no URL shape"
-        ctx.ob("R12.3", f"redirect {sid}: query position receives match()'s query_args unchanged or mapping-encoded", qok, qfact, fr.fi, r, f"redirect {sid} query")
+        site_ob("R12.3", "query position receives match()'s query_args unchanged or mapping-encoded", qok, qfact, "query")
 
     # floor 1: every redirect site above already owes a positional assembly; two redirects may share one assembly helper
     ctx.floor("R12.1", "URL assembly sites reached from the redirect sites", len(ip.url_sites), 1)
     for u in sorted(ip.url_sites.values(), key=lambda u: (u.where.fq, getattr(u.site, "lineno", 0))):
+        if u.path_ok is None:  # shape not understood: neither a pass nor a finding
+            ctx.error(f"R12.1: {u.where.qualname}: path position of the {u.form.split('(')[0].split(' ')[0]} at {u.where.loc(u.site)}: {u.path_fact}")
+            continue
         ctx.ob("R12.1", f"{u.where.qualname}: path position of {u.form}", u.path_ok, u.path_fact, u.where, u.site, f"{u.where.qualname} path position [{u.form.split('(')[0].split(' ')[0]}]")
 
     # urljoin: every call in match() and the raising helpers
-    n_uj = 0
-    done: set[int] = set()
-    for fr in frames:
-        fi = fr.fi
-        for c in astq.calls(fi.node):
-            d = dotted(c.func)
-            if id(c) in done or not d or repo.resolve(fi.module, d, fi.module.local_imports(fi.node)) != URLJOIN:
-                continue
-            done.add(id(c))
-            n_uj += 1
-            node = fr.cfg.node_of(c)
-            ex = _excluded(fr.cfg, node) if node is not None else None
-            if ex:
-                ctx.ob("R12.1", f"{fi.qualname}: urljoin only under the redirect_to branch", True, f"dominated by `{ex}`", fi, c, f"urljoin in {fi.qualname}")
-                continue
-            labs = join_all(ip.ev(a, fr) for a in c.args[1:]).flat() if len(c.args) > 1 else frozenset()
-            ctx.ob("R12.1", f"{fi.qualname}: urljoin receives no request data", not labs, f"`{norm(c)[:90]}`: joined part carries {names(labs) or 'nothing'}", fi, c, f"urljoin in {fi.qualname}")
-    ctx.note(f"R12.1: {n_uj} urljoin call(s) in MapAdapter.match and its raising helpers")
+    # ... and every urljoin call the interpreter met while evaluating the redirect URLs (helpers that build the URL), in
+    # each calling context
+    uj_sites: dict[int, tuple[ast.Call, list[Frame]]] = {}
+    for c, fr in [(c, fr) for fr in frames for c in astq.calls(fr.fi.node)] + list(ip.urljoins):
+        d = dotted(c.func)
+        if d and repo.resolve(fr.fi.module, d, fr.fi.module.local_imports(fr.fi.node)) == URLJOIN:
+            ent = uj_sites.setdefault(id(c), (c, []))
+            if not any(f.stack == fr.stack for f in ent[1]):
+                ent[1].append(fr)
+    n_uj = len(uj_sites)
+    for c, frs in uj_sites.values():
+        fi = frs[0].fi
+        node = frs[0].cfg.node_of(c)
+        ex = _excluded(frs[0].cfg, node) if node is not None else None
+        if ex:
+            ctx.ob("R12.1", f"{fi.qualname}: urljoin only under the redirect_to branch", True, f"dominated by `{ex}`", fi, c, f"urljoin in {fi.qualname}")
+            continue
+        jv = join_all(ip.ev(a, fr) for fr in frs for a in c.args[1:])
+        labs = jv.flat()
+        if labs and not jv.strong():
+            ctx.error(f"R12.1: {fi.qualname}: cannot decide whether the urljoin at {fi.loc(c)} receives request data ({names(labs)}): the value passes through a construct the taint analysis does not follow")
+            continue
+        ctx.ob("R12.1", f"{fi.qualname}: urljoin receives no request data", not labs, f"`{norm(c)[:90]}`: joined part carries {names(labs) or 'nothing'}", fi, c, f"urljoin in {fi.qualname}")
+    ctx.note(f"R12.1: {n_uj} urljoin call(s) in MapAdapter.match, its raising helpers and the helpers that build the redirect URLs")
 
     # ---------------- R12.2 ----------------------------------------------------
     _matcher_path(ctx, ip, top)
@@ -789,7 +1219,7 @@ def run(ctx: Ctx) -> None:
 
 def _concrete(a: Abs) -> t.Any:
     """the one Python constant a parameter is bound to in this calling context, if it is one."""
-    if a.consts is not None and len(a.consts) == 1 and not a.flat() and a.tup is None and not a.urls:
+    if a.consts is not None and len(a.consts) == 1 and not a.flat() and not a.structured() and not a.urls:
         return next(iter(a.consts))
     return UNKNOWN
 
@@ -838,6 +1268,7 @@ def _scheme_rule(ctx: Ctx, ip: Interp, router_sites: set[int]) -> None:
         bad: list[str] = []
         facts: list[str] = []
         reached = 0
+        undecided = False
         for fr, pieces in ent["ctxs"].values():
             exprs = [p[1] for p in pieces if p[0] == "e"]
             via = " <- ".join(x.rsplit(".", 1)[-1] for x in reversed(fr.stack[-3:]))
@@ -861,13 +1292,18 @@ def _scheme_rule(ctx: Ctx, ip: Interp, router_sites: set[int]) -> None:
                 reached += 1
                 if any(x is UNKNOWN for x in texts):
                     shape = " + ".join(repr(p[1]) if p[0] == "c" else f"`{norm(p[1])}`" for p in pieces)
-                    raise AnalysisError(f"{fi.qualname} ({via}): the scheme position {shape} of the {form} at {fi.loc(site)} does not evaluate to constants for an adapter bound to {s!r}")
+                    # cannot decide (exit 2 unless another obligation is violated: then that finding is what gets reported)
+                    ctx.error(f"R12.8: {fi.qualname} ({via}): the scheme position {shape} of the {form} at {fi.loc(site)} does not evaluate to constants for an adapter bound to {s!r}")
+                    undecided = True
+                    break
                 got = sorted(set(texts))
                 row.append(f"{s} -> {got}")
                 wrong = [x for x in got if (x[:-1] if x.endswith(":") else x) not in SCHEMES or ((x[:-1] if x.endswith(":") else x) in SECURE) != (s in SECURE)]
                 if wrong:
                     bad.append(f"bound to {s!r} it can be {wrong} ({via}; {ptxt})")
             facts.append(f"[{via}] " + ", ".join(row))
+        if undecided and not bad:
+            continue
         if not reached:
             raise AnalysisError(f"{fi.qualname}: the {form} at {fi.loc(site)} is reached in no evaluated context")
         ctx.ob("R12.8", f"{fi.qualname}: scheme position of the {form} stays in the security class of the bound scheme", not bad,
@@ -919,6 +1355,7 @@ def _matcher_path(ctx: Ctx, ip: Interp, top: Frame) -> None:
 
         expand(arg)
         problems: list[str] = []
+        doubts: list[str] = []
         shapes: list[str] = []
         for a in alts:
             ps = ip._fuse(ip.pieces(a, top))
@@ -931,14 +1368,19 @@ def _matcher_path(ctx: Ctx, ip: Interp, top: Frame) -> None:
                 if p[0] != "e" or not ip.ev(p[1], top).flat():
                     continue
                 ex = p[1]
-                stripped = isinstance(ex, ast.Call) and isinstance(ex.func, ast.Attribute) and ex.func.attr == "lstrip" and len(ex.args) == 1 and "/" in (const_str(ex.args[0]) or "")
-                if not stripped:
+                st = ip._strip_state(ex, both_ends=False)
+                if st == "no":
                     problems.append(f"`{norm(ex)}` keeps its leading slashes")
+                elif st == "unknown":
+                    doubts.append(f"cannot tell whether `{norm(ex)}` has its leading slashes stripped")
                 if i == 0 or not (ps[i - 1][0] == "c" and ps[i - 1][1].endswith("/")):
                     problems.append(f"`{norm(ex)}` is not preceded by a literal '/'")
         derived = any(n.startswith("match(path_info)") for n in names(labs))
         if not derived:
             problems.append("the matcher's path is not derived from match()'s path_info")
+        if doubts and not problems:  # a way of stripping that is not modelled: neither a pass nor a finding
+            ctx.error(f"R12.2: the path handed to the matcher at {match.loc(c)}: alternatives {shapes}: " + "; ".join(doubts))
+            continue
         ctx.ob("R12.2", "path handed to the matcher = '/' + path_info.lstrip('/')", not problems, f"alternatives: {shapes}" + (": " + "; ".join(problems) if problems else ""), match, c, "matcher path normalised")
 
 
@@ -988,7 +1430,7 @@ def _encode_query_args(ctx: Ctx, ip: Interp) -> None:
                 continue
             n_str += 1
             v = ip.ev(e, fr) if e is not None else none_abs()
-            same = v.flat() == frozenset([(param, True)]) and v.tup is None and not v.urls
+            same = v.flat() == frozenset([(param, True)]) and not v.structured() and not v.urls
             ctx.ob("R12.4", "encode_query_args: a str argument is returned itself", same,
                    f"under isinstance({param}, str) the function returns `{norm(e) if e is not None else 'None'}`" + ("" if same else " - not the argument unchanged: an already encoded query string would be altered"),
                    fi, r, "str query returned unchanged")
